@@ -47,18 +47,35 @@ The code is modelled **as it is** (default features: one process-wide arena, no 
   `disposeKey`    — `ArenaItem::dispose` (`arena.remove`, value dropped).
 * `potential`     — fuel for `runFrames` (structural recursion); `Theorems/C08` proves it suffices.
 * `pauseWalk`     — `Owner::pause/resume` (explicit stack over `children`); `ownerPaused` — `Owner::paused`.
-* reactive layer (`SigRec`, `MemoRec`, `EffRec`, `execBOp`, `runMemo`, `pollEff`, `setSig`):
-    - `Effect::new`: `effect_base` (`channel()`, `observer.notify()`, `Owner::new()`), task spawned,
-      `ArenaItem::new_with_storage(Some(inner))`; task loop `while rx.next().await.is_some()`:
-      `!owner.paused() && (update_if_necessary() || first_run)` ⇒ `clear_sources`,
-      `owner.with_cleanup(body)`.  `Receiver::poll_next` yields `None` once the `Sender`
-      (owned by the arena entry) is gone ⇒ the task returns and drops its `Owner`.
+* reactive layer (`SigRec`, `MemoRec`, `EffRec`, `EffKind`, `execWith`/`exec`, `runMemo`, `runScoped`,
+  `runEffect`, `pollEff`, `setSig`) — every constructor that re-runs a body under an owner of its own:
+    - `Effect::new` / `new_sync` / `new_isomorphic` (`EffKind.plain`; the same loop, `spawn_local` vs
+      `spawn`): `effect_base` (`channel()`, `observer.notify()`, `Owner::new()`), task spawned,
+      `ArenaItem::new_with_storage(Some(inner))`; loop `while rx.next().await.is_some()`:
+      `!owner.paused() && (update_if_necessary() || first_run)` ⇒ `clear_sources` (`prepRun`),
+      `owner.with_cleanup(body)` (`runScoped`).  `Receiver::poll_next` yields `None` once the `Sender`
+      (owned by the arena entry) is gone ⇒ the task returns and drops its `Owner` (`endTask`);
+      `runEffect` is one iteration of the loop body, `pollEff` one poll of the task, `ready` the
+      controlled executor's ready list in spawn order (`St.tasks`; woken, or entry gone ⇒ woken by
+      `Inner::drop`).
+    - `Effect::watch(dep, handler, immediate)` (`EffKind.watch imm hb`): the dependency function is
+      the body; the handler is called **after and outside** `owner.with_cleanup(..)`
+      (`afterRun`/`runHandler`: no owner pushed, no observer) when `immediate || !first_run`.
+    - `RenderEffect::new` (`EffKind.render`, `newRender`): `Owner::new()`, first run at once under
+      `owner.with` (fresh owner), then the task; **not** in the arena — alive while the handle is
+      (`EffRec.held`); re-run on `update_if_necessary()` only.
+    - `AsyncDerived::new` with a future that is ready at once (`EffKind.async`, `newAsync`):
+      `Owner::new()`, `owner.with_cleanup(|| fun())` at once, task spawned (`Executor::spawn`), then
+      the arena item (`finishAsync`); the task re-runs `owner.with_cleanup(|| fun())` when marked
+      dirty (`needs_rerun`), sources are not cleared.
     - `Memo::new` ⇒ `MemoInner::new` (`Owner::new()`, state `Dirty`), arena item;
-      `update_if_necessary` when `Dirty` ⇒ `clear_sources`, `owner.with_cleanup(fun)`.
+      `update_if_necessary` when `Dirty` ⇒ `clear_sources`, `owner.with_cleanup(fun)` (`runMemo`).
       Memos here read signals only, effects read memos untracked only (so `Check` never arises;
       the propagation protocol itself is C01/C02/C09's subject).
+    - `Owner::with_cleanup` called directly (`runWc`).
     - `RwSignal::new`/`set`: arena item holding the value; `set` marks every subscriber dirty
       (`mark_dirty` on an effect = `dirty := true; notify`), subscribers are weak.
+    - first runs that happen inside a constructor nest synchronously (`exec` carries the depth bound).
 * `Core` is the part of the state the property talks about (owners, arena, ambient owner stack,
   log, ghost counters); `St extends Core` adds the reactive tables and the harness's handle tables.
 * `Op`, `stepOp` — the harness's op lines (see harness/hx-c08/src/bin/c08.rs for the grammar).
@@ -575,28 +592,36 @@ def eagerEff (o b : Nat) (kind : EffKind) : EffRec :=
   { key := none, owner := o, body := b, dirty := false, firstRun := false, notified := false,
     woken := true, done := false, sources := [], kind := kind, held := true }
 
+/-- `Owner::new()` for a value that runs its body while it is being constructed; the record is
+entered first so that the body's tracked reads find their subscriber -/
+def pushEager (st : St) (b : Nat) (kind : EffKind) : St :=
+  let (c1, o) := newOwner st.toCore
+  { st with toCore := c1, effs := st.effs ++ [eagerEff o b kind] }
+
+/-- the id of the owner `pushEager` creates -/
+def eagerOwner (st : St) : Nat := (newOwner st.toCore).2
+
+/-- `Executor::spawn` -/
+def addTask (st : St) (e : Nat) : St := { st with tasks := st.tasks ++ [e] }
+
 /-- `RenderEffect::new(body b)`: owner, first run at once (the owner is fresh, so `owner.with` and
 `with_cleanup` coincide), then the task is spawned; no arena item -/
 def newRender (ex : St → BOp → St) (st : St) (b : Nat) : St :=
-  let e := st.effs.length
-  let (c1, o) := newOwner st.toCore
-  let st := { st with toCore := c1, effs := st.effs ++ [eagerEff o b EffKind.render] }
-  let st := runScoped ex st e o b
-  { st with tasks := st.tasks ++ [e] }
+  addTask (runScoped ex (pushEager st b EffKind.render) st.effs.length (eagerOwner st) b) st.effs.length
+
+/-- the `ArcAsyncDerived` goes into the arena: `ArenaItem::new_with_storage` -/
+def finishAsync (st : St) (e : Nat) : St :=
+  let (c2, k) := newItem st.toCore (Val.eff e)
+  match st.effs[e]? with
+  | some er => { st with toCore := c2, effs := st.effs.set e { er with key := some k, held := false } }
+  | none => { st with toCore := c2 }
 
 /-- `AsyncDerived::new(|| { body; ready future })`: owner, first run at once under
 `owner.with_cleanup`, task spawned, then the arena item -/
 def newAsync (ex : St → BOp → St) (st : St) (b : Nat) : St :=
-  let e := st.effs.length
-  let (c1, o) := newOwner st.toCore
-  let st := { st with toCore := c1, effs := st.effs ++ [eagerEff o b EffKind.async] }
-  let st := runScoped ex st e o b
-  let (c2, k) := newItem st.toCore (Val.eff e)
-  match st.effs[e]? with
-  | some er =>
-    { st with toCore := c2, tasks := st.tasks ++ [e],
-              effs := st.effs.set e { er with key := some k, held := false } }
-  | none => { st with toCore := c2, tasks := st.tasks ++ [e] }
+  finishAsync
+    (addTask (runScoped ex (pushEager st b EffKind.async) st.effs.length (eagerOwner st) b) st.effs.length)
+    st.effs.length
 
 /-- `MemoInner::update_if_necessary` taking the `Dirty` branch -/
 def runMemo (ex : St → BOp → St) (st : St) (m : Nat) : St :=
@@ -648,13 +673,14 @@ def execWith (ex : St → BOp → St) (st : St) : BOp → St
   | .render b => newRender ex st b
   | .async b => newAsync ex st b
 
-/-- token execution with a bound on the depth of synchronously nested bodies (a body only names
-earlier bodies, so `bodies.length + 1` is never exhausted) -/
+/-- token execution with a bound on the depth of synchronously nested bodies: a body only names
+earlier bodies, and a memo is recomputed only outside memo runs, so a chain of nested runs is at
+most "decreasing bodies, one memo, decreasing bodies": `2 * bodies.length + 3` is never exhausted -/
 def exec : Nat → St → BOp → St
   | 0, st, op => execWith (fun s _ => s) st op
   | f + 1, st, op => execWith (exec f) st op
 
-def execBOp (st : St) (op : BOp) : St := exec (st.bodies.length + 1) st op
+def execBOp (st : St) (op : BOp) : St := exec (2 * st.bodies.length + 3) st op
 
 /-- a token of a `watch` handler: reads are untracked, and what it creates lands on whatever owner
 is current where the task is polled -/
@@ -669,7 +695,9 @@ def execHandlerTok (st : St) : BOp → St
   | .sig v =>
     let hit := (currentOwner st.toCore).isNone
     { (newSignal st v) with watchHit := st.watchHit || hit }
-  | .use ty => st.lift (useCtx · ty)
+  | .use ty =>
+    let hit := (currentOwner st.toCore).isNone
+    { (st.lift (useCtx · ty)) with watchHit := st.watchHit || hit }
   | _ => st
 
 def runHandler (st : St) (e : Nat) (hb : Nat) : St :=
@@ -687,18 +715,24 @@ def endTask (st : St) (e : Nat) : St :=
     st.lift (dropOwner · er.owner)
   | none => st
 
-/-- one iteration of the task loop's body -/
-def runEffect (st : St) (e : Nat) (er : EffRec) : St :=
+/-- `subscriber.clear_sources(..)` (not for an async derived) and the loop's flags -/
+def prepRun (st : St) (e : Nat) (er : EffRec) : St :=
   let isAsync := er.kind == EffKind.async
   let st := if isAsync then st else clearSources st (Sub.eff e) er.sources
   let er1 : EffRec :=
     { er with woken := false, notified := false, dirty := false, firstRun := false,
               sources := if isAsync then er.sources else [] }
-  let st := { st with effs := st.effs.set e er1 }
-  let st := runScoped execBOp st e er.owner er.body
+  { st with effs := st.effs.set e er1 }
+
+/-- `Effect::watch`: the handler is called after, and outside, `owner.with_cleanup(..)` -/
+def afterRun (st : St) (e : Nat) (er : EffRec) : St :=
   match er.kind with
   | .watch imm hb => if imm || !er.firstRun then runHandler st e hb else st
   | _ => st
+
+/-- one iteration of the task loop's body -/
+def runEffect (st : St) (e : Nat) (er : EffRec) : St :=
+  afterRun (runScoped execBOp (prepRun st e er) e er.owner er.body) e er
 
 /-- `Owner::paused` -/
 def ownerPaused (st : Core) (o : Nat) : Bool :=
